@@ -69,10 +69,12 @@ def pairs(d):
                     store={}, remote={scen.REMOTE: {"definitions": {"x": doc}}}, instances=[inst], refs=[], fmt=None)
     H1 = remote_member({"type": "integer"}, {"r": "s", "q": 1})
     H2 = remote_member({"type": "string"}, {"q": 2, "r": 1})
+    # ... and one whose own handler cannot retrieve it at all (its validation ends in RefResolutionError, alone or not)
+    HF = dict(remote_member({"type": "null"}, {"q": 3, "r": 1}), handler_fails=True)
     M1 = meta_member("meta-override-1", {"type": "string"}, {"m": 3, "n": "x"})
     M2 = meta_member("meta-override-2", {"type": "null"}, {"m": "x", "n": None})
     M3 = meta_member("meta-default", None, {"m": "x", "n": -1})
-    return [[A, B], [B, A], [A3, B3, C], [rec, rec2], [A, rec], [D1, D2], [M1, M3], [M3, M2], [M2, M1], [E1, E2], [H1, H2]]
+    return [[A, B], [B, A], [A3, B3, C], [rec, rec2], [A, rec], [D1, D2], [M1, M3], [M3, M2], [M2, M1], [E1, E2], [H1, H2], [HF, H2], [H1, HF]]
 
 
 def instances_for(grp):
@@ -115,11 +117,13 @@ class MeetingHandler(object):
     """a retrieval handler serving this member's own documents.  When a meeting point is set (threaded rounds), every
     retrieval waits there briefly for the other members' retrievals: the handlers of all members are then inside their
     retrievals of the same URL at the same time, each for its own resolver"""
-    def __init__(self, docs):
-        self.docs, self.meet, self.calls = docs, None, 0
+    def __init__(self, docs, fails=False):
+        self.docs, self.meet, self.calls, self.fails = docs, None, 0, fails
 
     def __call__(self, uri):
         self.calls += 1
+        if self.fails:
+            raise IOError("this member's own source for %s is down" % uri)
         if self.meet is not None:
             try:
                 self.meet.wait()
@@ -138,7 +142,7 @@ def build(d, m, real=False):
     schema = copy.deepcopy(m["schema"])
     kw = {}
     if m.get("remote"):
-        h = MeetingHandler(copy.deepcopy(m["remote"]))
+        h = MeetingHandler(copy.deepcopy(m["remote"]), fails=bool(m.get("handler_fails")))
         kw["handlers"] = {"http": h, "https": h}
     res = R.from_schema(schema, id_of=cls.ID_OF, store=copy.deepcopy(m["store"]), **kw)
     if m.get("remote"):
@@ -205,7 +209,7 @@ def run_scheduled(d, grp, sched):
 
     def work(i):
         try:
-            out[i] = [scen.canon(e) for e in vals[i].iter_errors(insts[i])]
+            out[i] = collect(vals[i].iter_errors(insts[i]))
         except Exception as e:  # noqa
             out[i] = "%s: %s" % (type(e).__name__, str(e)[:80])
         finally:
@@ -218,9 +222,21 @@ def run_scheduled(d, grp, sched):
     return out, turns.problem
 
 
+def collect(gen):
+    """the errors an iterator yields, in order; a RefResolutionError ending the iteration is part of the outcome"""
+    js = import_lib()
+    out = []
+    try:
+        for e in gen:
+            out.append(scen.canon(e))
+    except js.exceptions.RefResolutionError:
+        out.append(("raised", "RefResolutionError"))
+    return out
+
+
 def solo(d, m):
     v, res = build(d, m, real=True)
-    return [scen.canon(e) for e in v.iter_errors(copy.deepcopy(m["instances"][0]))]
+    return collect(v.iter_errors(copy.deepcopy(m["instances"][0])))
 
 
 def measure(d, m, table):
@@ -235,6 +251,11 @@ def measure(d, m, table):
             e = next(gen)
         except StopIteration:
             script += scen.convert(res.events[n0:])
+            break
+        except js.exceptions.RefResolutionError:
+            evs = scen.convert(res.events[n0:])
+            cut = next((k for k, x in enumerate(evs) if x["e"] == "res" and not x["ok"]), None)
+            script += evs[:cut + 1] if cut is not None else evs
             break
         script += scen.convert(res.events[n0:])
         key = scen.canon(e)
@@ -305,11 +326,17 @@ def main(args):
         gens = [v.iter_errors(I) for (v, _), I in zip(vals, instances_for(grp))]
         got = [[] for _ in grp]
         crashed = None
+        ended = set()
         for n in ex["sched"]:
+            if n in ended:
+                continue
             try:
                 got[n - 1].append(scen.canon(next(gens[n - 1])))
             except StopIteration:
                 pass
+            except js.exceptions.RefResolutionError:
+                got[n - 1].append(("raised", "RefResolutionError"))
+                ended.add(n)
             except Exception as e:  # noqa
                 crashed = "%s: %s" % (type(e).__name__, str(e)[:80])
                 break
@@ -373,7 +400,7 @@ def main(args):
                 def work(i):
                     try:
                         barrier.wait()
-                        res[i] = [scen.canon(e) for e in vals[i][0].iter_errors(insts[i])]
+                        res[i] = collect(vals[i][0].iter_errors(insts[i]))
                     except Exception as e:  # noqa
                         res[i] = "%s: %s" % (type(e).__name__, str(e)[:80])
                 ts = [threading.Thread(target=work, args=(i,)) for i in range(len(grp))]
